@@ -54,7 +54,7 @@ def list_(delegate, engine, *args):
 
 @specs.method
 @specs.parameter('collection', yaqltypes.Iterable())
-def flatten(collection):
+def flatten(collection, engine):
     """:yaql:flatten
 
     Returns an iterator to the recursive traversal of collection.
@@ -71,7 +71,10 @@ def flatten(collection):
     """
     for t in collection:
         if utils.is_iterable(t):
-            yield from flatten(t)
+            # the flattened output is limited by the consumer, but a nested
+            # iterator of empty iterators produces no output: limit what is
+            # pulled from every nested collection as well
+            yield from flatten(utils.limit_iterable(t, engine), engine)
         else:
             yield t
 
